@@ -238,7 +238,9 @@ partial def loop (h : IO.FS.Stream) (d : DS) : IO Unit := do
   if d.ioblock && ws.head? != some "C" then
     -- Stop racing a busy read task of the IO pool: Stop returns (the pool's Stop unblocks the hand-over: TPool, C19)
     match ws with
-    | "O" :: "run" :: _ => IO.println s!"R ret=nil attempts={d.attempts}"; loop h d
+    | "O" :: "run" :: rest =>
+      if Drv.field rest "skip" == some "1" then do IO.println "R skipped"; loop h d
+      else do IO.println s!"R ret=nil attempts={d.attempts}"; loop h d
     | _ => IO.println "R -"; loop h d
   else
   if let (some hd, false) := (d.hs, ws.head? == some "C") then
